@@ -10,7 +10,7 @@ static const int64_t UNIX = 946684800LL;
 static const int64_t T_END = 1577923200LL;
 
 struct Targets { std::vector<TimeZone> tz; };
-static uint64_t g_n = 0, g_conv = 0, g_cmp = 0, g_skipped = 0;
+static uint64_t g_n = 0, g_conv = 0, g_cmp = 0, g_skipped = 0, g_back = 0;
 
 static void check_instant(const TimeZone& tz, const char* tzname, int64_t t64, int32_t off_s, const Targets& tg, bool judge_offset, bool heavy = true) {
   acetime_t t = (acetime_t)t64;
@@ -116,6 +116,21 @@ int main(int argc, char** argv) {
         std::string label = nm + (kind >= 2 ? " (managed)" : "");
         for (int64_t t = (int64_t)((a.seed * 7919 + zi * 60) % grid); t < T_END - 2; t += grid) check_instant(tz, label.c_str(), t, oz.e[oz.at(t)].utoff, tg, true);
         for (size_t k = 1; k < oz.e.size(); k++) { int64_t b = oz.e[k].start; if (b < 10 || b >= T_END - 10) continue; for (int d = -2; d <= 2; d++) check_instant(tz, label.c_str(), b + d, oz.e[oz.at(b + d)].utoff, tg, true); }
+        // adversarial order: time going backwards over the edges of the processor's 14-month window. For every year Y (descending) the
+        // processor is primed with mid-year Y and then asked for each hour within 15 h of Dec 1 Y-1, Jan 1 Y, Jan 1 Y+1, Jan 31 Y+1 and
+        // Feb 1 Y+1 (UTC) - instants a cache keyed on UTC dates or on month indexes may wrongly serve from year Y's window.
+        for (int Y = 2048; Y >= 2001; Y--) {
+          int64_t prime = civil::epoch2000_from_fields(Y, 7, 1, 12, 0, 0);
+          const int64_t edges[] = {civil::epoch2000_from_fields(Y - 1, 12, 1, 0, 0, 0), civil::epoch2000_from_fields(Y, 1, 1, 0, 0, 0), civil::epoch2000_from_fields(Y + 1, 1, 1, 0, 0, 0),
+                                   civil::epoch2000_from_fields(Y + 1, 1, 31, 0, 0, 0), civil::epoch2000_from_fields(Y + 1, 2, 1, 0, 0, 0)};
+          for (int64_t e : edges) for (int h = -15; h <= 15; h++) {
+            int64_t t = e + h * 3600 + (int64_t)(a.seed % 3600);
+            if (t < 10 || t >= T_END - 10) continue;
+            check_instant(tz, label.c_str(), prime, oz.e[oz.at(prime)].utoff, tg, true, false);
+            check_instant(tz, label.c_str(), t, oz.e[oz.at(t)].utoff, tg, true, false);
+            g_back++;
+          }
+        }
         // same zone, two instants exactly one offset drop apart across a fall-back: identical local fields, different instants.
         // compareTo must order them by instant and == must tell them apart.
         for (size_t k = 1; k < oz.e.size(); k++) {
@@ -134,7 +149,7 @@ int main(int argc, char** argv) {
       }
     }
   }
-  c.add("instants", g_n); c.add("conversions", g_conv); c.add("comparisons", g_cmp); c.add("outside_documented_domain_not_judged", g_skipped);
+  c.add("instants", g_n); c.add("primed_window_edge_instants", g_back); c.add("conversions", g_conv); c.add("comparisons", g_cmp); c.add("outside_documented_domain_not_judged", g_skipped);
   if (a.shard == 0) sample(fmt("{\"zone\":\"manual(-480 min)\",\"epochSeconds\":%lld,\"checks\":\"toEpochSeconds/toUnixSeconds/forUnixSeconds/convertToTimeZone x6/compareTo\"}", (long long)s0));
   done(c);
   return 0;
